@@ -49,7 +49,12 @@ func tryStr(t fp.Try[int]) string {
 	if t.IsSuccess() {
 		return fmt.Sprintf("S(%d)", t.Get())
 	}
-	return fmt.Sprintf("F(%v)", t.Failed().Get())
+	if e := t.Failed(); e.IsSuccess() {
+		return fmt.Sprintf("F(%v)", e.Get())
+	} else {
+		// a failure that carries no error (Failure(nil), the zero-value Try): rendered by what Failed() makes of it
+		return fmt.Sprintf("F(<no error: %v>)", e.Failed().OrElse(nil))
+	}
 }
 
 func execC05(r *sim.Run) {
@@ -58,6 +63,10 @@ func execC05(r *sim.Run) {
 		return
 	}
 	r.Case = "race"
+	// unusual but legal results: a failure that carries no error (Failure(nil), the zero-value Try). Whatever the
+	// promise makes of it, every observer - callbacks registered before, during and after, Value() - sees the same.
+	// (OnFailure is left out of these runs: unpacking such a failure panics inside the library's own adaptor.)
+	nilErrRun := r.Bool(1, 10, "nilErrRun")
 	p := fp.NewPromise[int]()
 	fut := p.Future()
 	ex := &execSet{run: r}
@@ -101,6 +110,9 @@ func execC05(r *sim.Run) {
 	}
 	newCb := func(who string) *c05cb {
 		cb := &c05cb{id: len(cbs), kind: r.Choose(4, "cbkind"), exec: r.Choose(exKinds, "cbexec"), who: who}
+		if nilErrRun && cb.kind == 2 {
+			cb.kind = 0
+		}
 		cbs = append(cbs, cb)
 		if r.ChooseWith(8, "reenter", func(g *sim.Rng) int { return g.Intn(8) }) == 7 {
 			cb.reenter = true
@@ -151,6 +163,11 @@ func execC05(r *sim.Run) {
 			c.kind = 3
 			c.want = fmt.Sprintf("S(%d)", 100+i)
 		}
+		if nilErrRun && c.kind != 0 && c.kind != 3 && r.Choose(2, "nilErrorFailure") == 1 {
+			c.kind = 4 + r.Choose(3, "nilErrKind")
+			c.want = c05AsStored
+			r.Fault("completion-with-a-nil-error-failure")
+		}
 		r.Go(fmt.Sprintf("comp%d", i), func(t *sim.Task) {
 			switch c.kind {
 			case 0:
@@ -161,6 +178,12 @@ func execC05(r *sim.Run) {
 				c.ret = p.Complete(fp.Failure[int](errs[i]))
 			case 3:
 				c.ret = p.Complete(fp.Success(100 + i))
+			case 4:
+				c.ret = p.Failure(nil)
+			case 5:
+				c.ret = p.Complete(fp.Try[int]{})
+			case 6:
+				c.ret = p.Complete(fp.Failure[int](nil))
 			}
 			c.done = true
 		})
@@ -251,6 +274,9 @@ type c05comp struct {
 
 type c05obs struct{ seen []string }
 
+// c05AsStored marks a completion whose rendering is taken from Value() (failures that carry no error).
+const c05AsStored = "<as stored>"
+
 func c05Check(r *sim.Run, p fp.Promise[int], cbs []*c05cb, comps []*c05comp, observers []*c05obs, ex *execSet, phase string) {
 	var seen [][]string
 	for _, o := range observers {
@@ -302,6 +328,14 @@ func c05Check(r *sim.Run, p fp.Promise[int], cbs []*c05cb, comps []*c05comp, obs
 	if !p.IsCompleted() {
 		r.Violate("not-completed", "%s: a completion call returned true but IsCompleted() is false", phase)
 		return
+	}
+	if winner == c05AsStored {
+		// the winning call passed a failure without an error; the reference is what Value() shows, and no success
+		winner = tryStr(p.Value())
+		if winner[0] == 'S' {
+			r.Violate("wrong-value", "%s: Value()=%s but the winning call completed with a failure (one without an error)", phase, winner)
+			return
+		}
 	}
 	if got := tryStr(p.Value()); got != winner {
 		r.Violate("wrong-value", "%s: Value()=%s but the winning call completed with %s", phase, got, winner)
